@@ -45,8 +45,21 @@ macro_rules! dispatch {
                     engine::replay::<props::$m::Case>($name, p, &props::$m::check, $known)
                 } else {
                     let t0 = Instant::now();
-                    let rep = props::$m::run($ctx, $known);
-                    finish($ctx, rep, $known, t0.elapsed().as_secs_f64())
+                    let (rst, rviol) = engine::run_regress::<props::$m::Case>($ctx, $name, &props::$m::check, $known);
+                    if let Some((path, _key, msg)) = rviol {
+                        // a repaired defect (or a new failure of a saved case) is back
+                        println!("  oracle: {}", msg);
+                        println!("VIOLATION property={} replay={}", $name, path);
+                        let mut rep = props::$m::run(&Ctx { scale: 0.02, ..$ctx.clone() }, $known);
+                        rep.stats.violation = None;
+                        engine::merge(&mut rep.stats, rst);
+                        let _ = finish($ctx, rep, $known, t0.elapsed().as_secs_f64());
+                        1
+                    } else {
+                        let mut rep = props::$m::run($ctx, $known);
+                        engine::merge(&mut rep.stats, rst);
+                        finish($ctx, rep, $known, t0.elapsed().as_secs_f64())
+                    }
                 }
             } )*
             other => { eprintln!("unknown property {}", other); 2 }
